@@ -688,7 +688,7 @@ func c09straceChild(args []string) int {
 	// invalid names, alone and as either name of a two-name operation: refused as ErrInvalid, naming the arguments, before any OS call
 	for _, bad := range []string{"", "../b", "b/", "/b", "x/../b", "./b", "d//f", "..", "d/.."} {
 		for _, st := range []fsx.Step{{K: "Stat", P: bad}, {K: "OpenClose", P: bad, Flag: os.O_RDWR | os.O_CREATE, Perm: 0o644}, {K: "Mkdir", P: bad, Perm: 0o755}, {K: "MkdirAll", P: bad, Perm: 0o755}, {K: "Remove", P: bad}, {K: "RemoveAll", P: bad},
-			{K: "Chmod", P: bad, Perm: 0o600}, {K: "Chtimes", P: bad, MTime: 5}, {K: "ReadDir", P: bad}, {K: "Lstat", P: bad},
+			{K: "Chmod", P: bad, Perm: 0o600}, {K: "Chtimes", P: bad, MTime: 5}, {K: "Chtimes", P: bad, N: 2}, {K: "ReadDir", P: bad}, {K: "Lstat", P: bad},
 			{K: "Rename", P: bad, P2: "d/f"}, {K: "Rename", P: "d/f", P2: bad}, {K: "Rename", P: "..a", P2: bad}, {K: "Symlink", P: "d/f", P2: bad}} {
 			mark("i")
 			r := fsx.Exec(cur, st, &hs, nil)
@@ -698,6 +698,23 @@ func c09straceChild(args []string) int {
 			if r.Err != "ErrInvalid" || (!two && r.EPath != st.P) || (two && (r.EOld != st.P || r.ENew != st.P2)) {
 				fmt.Printf("BADERR %s (invalid name) -> %s Path=%q Old=%q New=%q\n", st, r, r.EPath, r.EOld, r.ENew)
 			}
+		}
+	}
+	// the file system without any root (NewFS() itself): OS errors name the caller's name there as well, not the absolute path
+	unrooted := hpos.NewFS()
+	var uh fsx.Handles
+	for _, st := range []fsx.Step{{K: "Stat", P: root[1:] + "/missing-u"}, {K: "Mkdir", P: root[1:] + "/missing-u/x", Perm: 0o755}, {K: "Remove", P: root[1:] + "/missing-u"}, {K: "ReadFile", P: root[1:] + "/missing-u"},
+		{K: "OpenClose", P: root[1:] + "/missing-u/f", Flag: os.O_RDWR | os.O_CREATE, Perm: 0o644}, {K: "Rename", P: root[1:] + "/missing-u", P2: root[1:] + "/missing-v"}, {K: "Chmod", P: root[1:] + "/missing-u", Perm: 0o600}} {
+		mark("b")
+		r := fsx.Exec(unrooted, st, &uh, nil)
+		mark("e")
+		n++
+		switch {
+		case r.OK():
+		case r.Typ == "PathError" && r.EPath != st.P:
+			fmt.Printf("BADERR (file system without a root) %s -> Path=%q\n", st, r.EPath)
+		case r.Typ == "LinkError" && (r.EOld != st.P || r.ENew != st.P2):
+			fmt.Printf("BADERR (file system without a root) %s -> Old=%q New=%q\n", st, r.EOld, r.ENew)
 		}
 	}
 	fmt.Printf("CALLS %d\n", n)
